@@ -890,6 +890,45 @@ func (w *liqWorld) opWithdraw(a *sim.Acct) {
 	if !ok {
 		return
 	}
+	if w.rnd.Intn(100) < 15 {
+		// hostile: the message names this pool but offers the pool coin of ANOTHER pool the sender holds (another pool of
+		// the same app, or the pool with the same number in another app); a fraction of the balance, or exactly as many
+		// coins as the named pool has outstanding
+		var others []liqtypes.Pool
+		for _, app := range w.apps {
+			for _, o := range w.c.App.LiquidityKeeper.GetAllPools(w.ctx(), app) {
+				if o.PoolCoinDenom != pool.PoolCoinDenom && w.bal(a.Addr, o.PoolCoinDenom).IsPositive() {
+					others = append(others, o)
+				}
+			}
+		}
+		if len(others) > 0 {
+			o := others[w.rnd.Intn(len(others))]
+			for _, x := range others {
+				if x.Id == pool.Id && x.AppId != pool.AppId && w.rnd.Intn(2) == 0 {
+					o = x
+				}
+			}
+			bal := w.bal(a.Addr, o.PoolCoinDenom)
+			amt, cls := w.fraction(bal)
+			if sup := w.c.App.BankKeeper.GetSupply(w.ctx(), pool.PoolCoinDenom).Amount; sup.IsPositive() && sup.LTE(bal) && w.rnd.Intn(2) == 0 {
+				amt, cls = sup, "the-named-pools-whole-supply"
+			}
+			if amt.IsPositive() {
+				rel := "same-app"
+				if o.AppId != pool.AppId {
+					rel = "other-app"
+					if o.Id == pool.Id {
+						rel = "other-app-same-pool-number"
+					}
+				}
+				st := w.deliver(a, "withdraw-foreign-coin", liqtypes.NewMsgWithdraw(pool.AppId, a.Addr, pool.Id, sdk.NewCoin(o.PoolCoinDenom, amt)), fmt.Sprintf("app=%d pool=%d offers %s%s (%s, %s)", pool.AppId, pool.Id, amt, o.PoolCoinDenom, rel, cls))
+				w.rec.Distinct("withdraw-foreign-coin", rel, cls, st.OK)
+				w.rec.Count("withdraw_with_a_foreign_pool_coin_"+rel, 1)
+				return
+			}
+		}
+	}
 	bal := w.bal(a.Addr, pool.PoolCoinDenom)
 	amt, cls := w.fraction(bal)
 	if !amt.IsPositive() {
